@@ -38,7 +38,7 @@ def angles(tier: str, rng: random.Random):
           pi / 2, pi / 4, 3 * pi / 2, pi / 256, 255 * pi / 256, pi * (1 + 2**-28), pi * (0.5 + 2**-27), -pi * (1 - 2**-26), 100.0, -100.0, 12345.678]
     for k in range(0, 33):
         A += [pi / 2**k, -pi / 2**k, pi * (1 + 2.0**-k), 3 * pi / 2**k]
-    n = 400 if tier == "quick" else 6000
+    n = 400 if tier == "quick" else 30000
     A += [rng.uniform(-4 * pi, 4 * pi) for _ in range(n)]
     A += [rng.uniform(0, 1e-3) for _ in range(n // 10)]
     return A
@@ -71,7 +71,7 @@ def run(prop: str, tier: str) -> int:
         from netqasm.sdk.build_types import NVHardwareConfig
         from netqasm.sdk.qubit import Qubit
         dtol = inspect.signature(get_angle_spec_from_float).parameters["tol"].default
-        sdk_angles = [a for a in angles(tier, random.Random(C.seed() * 17 + 3))][: (300 if tier == "quick" else 3000)]
+        sdk_angles = [a for a in angles(tier, random.Random(C.seed() * 17 + 3))][: (300 if tier == "quick" else 10000)]
         sdk_angles += [2 * math.pi - e for e in (1e-3, 1e-4, 5e-5, 2e-5, 1e-5, 1e-6, 1e-7)] + [-e for e in (1e-4, 2e-5, 1e-6)] + [4 * math.pi - 1e-6, math.pi - 1e-6, math.pi + 1e-6]
         nsdk = 0
         from netqasm.logging.glob import set_log_level
